@@ -12,11 +12,13 @@ Each sub-directory holds a change to WilsonGregory/ginjax written by a fresh sub
 the text of one property and its own scratch git worktree of `/repo` (never `/verif`): `patch.diff`, the
 demonstration `demo.py` (exits 0 on the unmodified tree, non-zero with the patch) and `meta.json` (what it
 breaks, what it needs in order to manifest, which tests the agent ran, and what I ran to confirm it).
-Round 1 = one change per property; rounds 2 and 3 (`-r2-`, `-r3-` in the name) = further, different changes per
-property, the agent being told what the earlier rounds had done so that it would pick another mechanism (round 3
-additionally asked for subtle changes around corner values and rarely used options).
+Round 1 = one change per property; rounds 2, 3 and 4 (`-r2-`, `-r3-`, `-r4-` in the name) = further, different
+changes per property, the agent being told what the earlier rounds had done so that it would pick another mechanism
+(round 3 additionally asked for subtle changes around corner values and rarely used options, round 4 for breakage
+that needs something unusual -- larger sizes or counts, D=3 only, rare keyword arguments, coinciding sizes, a
+sequence of calls -- so that small spot checks are unlikely to hit it).
 
-Procedure used to confirm each one (`seeded_confirm.sh`, `seeded_confirm2.sh`, `seeded_confirm3.sh`): run the demo on a scratch
+Procedure used to confirm each one (`seeded_confirm.sh`, `seeded_confirm2.sh`, `seeded_confirm3.sh`, `seeded_confirm4.sh`): run the demo on a scratch
 worktree with the patch (must fail) and on `/repo` (must pass); `git -C /repo apply patch.diff`; run the quick
 checks; `git -C /repo checkout -- .`.  None of these changes is ever committed to `/repo`.  All of them are
 replayed by `./selftest` (as `seeded:<name>`) next to the hand-written mutants.
@@ -26,8 +28,8 @@ replayed by `./selftest` (as `seeded:<name>`) next to the hand-written mutants.
 NOTES = """
 ## What the seeds taught
 
-Of the 60 independent changes (three per property), 40 were reported by the named property's check as first
-written (13 / 12 / 15 of 20 in rounds 1 / 2 / 3).  Twenty were not -- missed (exit 0) or undecided (exit 2) --
+Of the 80 independent changes (four per property), 54 were reported by the named property's check as first
+written (13 / 12 / 15 / 14 of 20 in rounds 1 / 2 / 3 / 4).  Twenty-six were not -- missed (exit 0) or undecided (exit 2) --
 and the checks were strengthened (never loosened) until they were; each strengthening is a wider box, a stronger
 oracle, a new rule or a newly modelled library function, not a special case for the seed:
 
@@ -57,14 +59,22 @@ Round 3
 * `C11-r3-falsy-padding-zero` -- missed by C11 (reported by C04): the layer box had no integer padding; 0, 1, 2 joined (with image dilation and anisotropic stride).
 * `C17-r3-choice-with-replacement` -- undecided (exit 2): `jax.random.choice` was not modelled; without replacement it is a permutation prefix, with replacement the draw is recorded and reported.
 
+Round 4
+* `C03-r4-group-sum-skips-first-operator` -- missed: every swept operator list started with the identity; reversed and rotated listings of the groups joined the box.
+* `C06-r4-moveaxis-in_c-to-2` -- missed by C06 (reported by C01, C04, C11; three agents produced this same one-line change independently): C06's D=3 signature had one channel per type; it has two now.
+* `C11-r4-torus-wrap-single-period` -- missed: no box had a wrap wider than the image (filter dilation > extent); the shared option box has one now (C04 reports it too).
+* `C16-r4-predictions-zipped-positionally` -- missed: the uninterpreted model emitted its output types in input order; models emitting them reversed / sorted joined the box.
+* `C17-r4-reshape-pmap-round-robin` -- undecided (exit 2): `jax.lax.slice_in_dim` was not modelled; `slice_in_dim`, `slice`, `dynamic_slice_in_dim`, `index_in_dim` were added.
+* `C19-r4-stop-checked-after-epoch` -- undecided (exit 2): the AST rule for the training loop did not recognise the do-while form; `ml.train` is now abstractly interpreted with recording stubs for its collaborators and fed loss histories (epochs trained and model handed back vs the statement), whatever the loop looks like.
+
 The C20 round-2 agent also noticed, independently, the defect repaired as F13 (output types in order of first
 reachability when the bank lacks a filter type).
 
 ## Test-suite with the repairs
 
-The unedited suite was run on `/repo` HEAD `647f153` (all `fix:` commits applied) in a scratch worktree:
+The unedited suite was run on `/repo` HEAD `6f4abbc` (all `fix:` commits F1-F14 applied) in a scratch worktree:
 `JAX_PLATFORMS=cpu /venv/bin/python -m pytest -ra -q -p no:cacheprovider --timeout=900 --continue-on-collection-errors`
-→ `106 passed, 4 warnings in 628.97s` (and `106 passed` at `d0f3a8e` before F13).
+→ `106 passed, 4 warnings in 698.40s` (and `106 passed` at `647f153` and `d0f3a8e` before).
 """
 
 
